@@ -475,7 +475,10 @@ def iter_to_list(I, it):
 ITER_TYPES = ["core::slice::Iter", "core::slice::IterMut", "alloc::vec::Drain", "alloc::vec::IntoIter", "Rev", "Chars", "CharIndices",
               "Cloned", "Copied", "Map", "Skip", "Take", "SkipWhile", "TakeWhile", "Filter", "Enumerate", "Peekable", "Chain",
               "core::ops::Range", "Range", "Zip", "std::slice::Iter", "std::vec::IntoIter", "std::vec::Drain", "std::slice::IterMut",
-              "core::str::Chars", "core::str::CharIndices", "I", "Iter", "IterMut", "IntoIter", "Drain"]
+              "core::str::Chars", "core::str::CharIndices", "I", "Iter", "IterMut", "IntoIter", "Drain",
+              # str iterators whose summaries return a ListIter (lines, split*, matches, ...)
+              "Lines", "std::str::Lines", "core::str::Lines", "Split", "std::str::Split", "core::str::Split", "SplitN", "std::str::SplitN",
+              "SplitInclusive", "std::str::SplitInclusive", "SplitWhitespace", "std::str::SplitWhitespace", "SplitTerminator", "std::str::SplitTerminator"]
 
 
 def _adapt(name, ctor):
